@@ -49,6 +49,9 @@ def pStrCk : P StrCk
     | "sw" => (decStr v).map (fun s => (.sw s, ts))
     | "ew" => (decStr v).map (fun s => (.ew s, ts))
     | "inc" => (decStr v).map (fun s => (.inc s, ts))
+    | "re" => (match v with
+        | "lw" => some Rx.lw | "dg" => some Rx.dg | "hd" => some Rx.hd | "ab" => some Rx.ab | "nx" => some Rx.nx
+        | _ => none).map (fun r => (.re r, ts))
     | _ => none
   | _ => none
 
@@ -115,6 +118,8 @@ partial def pS : P S
   | "(" :: "lit" :: ts => do let (vs, ts) ← pMany pPrim ts; pure (.lit vs, ts)
   | "(" :: "opt" :: ts => do let (s, ts) ← pS ts; let (_, ts) ← expect ")" ts; pure (.opt s, ts)
   | "(" :: "nul" :: ts => do let (s, ts) ← pS ts; let (_, ts) ← expect ")" ts; pure (.nul s, ts)
+  -- a registry ID does not change what the schema accepts or (after inlining the `$ref`) what its document says
+  | "(" :: "id" :: _ :: ts => do let (s, ts) ← pS ts; let (_, ts) ← expect ")" ts; pure (s, ts)
   | "(" :: "obj" :: m :: ts => do
       let m ← pMode m
       let (ca, ts) ← pSOpt ts
@@ -226,6 +231,11 @@ def patRegex : Pat → Str
   | .has s => quoteMeta s
   | .noUp => lit "^[^A-Z]*$"
   | .noLow => lit "^[^a-z]*$"
+  | .rx .lw => lit "^[a-z]+$"
+  | .rx .dg => lit "^[0-9]*$"
+  | .rx .hd => lit "[0-9]"
+  | .rx .ab => lit "^(a|b)"
+  | .rx .nx => lit "^[^x]*$"
 
 def primText : Prim → String
   | .null => "null"
@@ -375,27 +385,96 @@ partial def instReasons : Json → List String
   | _ => []
 end
 
+/-! ### regions where the model knowingly does not mirror the code (outside `reprP` coherence) -/
+
+mutual
+/-- every node at or below `s` (children before parents does not matter here). -/
+partial def nodes : S → List S
+  | .opt s => .opt s :: nodes s
+  | .nul s => .nul s :: nodes s
+  | .obj m ca p cks shape => .obj m ca p cks shape :: (nodesCa ca ++ nodesShape shape)
+  | .slice e cks => .slice e cks :: nodes e
+  | .arr rest cks items => .arr rest cks items :: (nodesCa rest ++ nodesList items)
+  | .tup rest cks items => .tup rest cks items :: (nodesCa rest ++ nodesList items)
+  | .record k v cks => .record k v cks :: (nodes k ++ nodes v)
+  | .union ms => .union ms :: nodesList ms
+  | .xor ms => .xor ms :: nodesList ms
+  | .and l r => .and l r :: (nodes l ++ nodes r)
+  | s => [s]
+partial def nodesCa : SOpt → List S
+  | .none => []
+  | .some s => nodes s
+partial def nodesList : SList → List S
+  | .nil => []
+  | .cons s ss => nodes s ++ nodesList ss
+partial def nodesShape : Shape → List S
+  | .nil => []
+  | .cons _ s rest => nodes s ++ nodesShape rest
+end
+
+/-- intersection.go `mergeUnrecognizedKeysIssues` ignores issue paths: an `unrecognized_keys` issue raised by a
+    strict object NESTED anywhere inside one side is dropped unless the other side reports the same key name.
+    `accepts (.and l r)` is the plain conjunction, so such schemas are outside what the model mirrors. -/
+def andStrictNested (s : S) : Bool :=
+  (nodes s).any (fun n => match n with
+    | .and l r => ((nodes l).drop 1 ++ (nodes r).drop 1).any (fun m => m.isStrictObj)
+    | _ => false)
+
 def dedup (xs : List String) : List String := xs.foldl (fun acc x => if acc.contains x then acc else acc ++ [x]) []
 
-def handle : List String → String
-  | "doc" :: ts =>
-    match pS ts with
-    | some (s, []) => let j := toDoc s; b2s (wfJS j) ++ " " ++ renderJS j
-    | _ => "bad-op"
-  | "inst" :: ts =>
-    match pS ts with
-    | some (s, ts) =>
-      match pJ ts with
-      | some (x, []) =>
+/-- `io=…,unrep=…,reused=…,cycles=…,target=…,meta=…,dup=0|1` -/
+def pOpts (tok : String) : Option (Opts × Bool) :=
+  let kv := (tok.splitOn ",").map (fun f => match f.splitOn "=" with | [k, v] => (k, v) | _ => ("", ""))
+  let get := fun k => (kv.find? (fun p => p.1 == k)).map (·.2)
+  match get "io", get "unrep", get "reused", get "cycles", get "target", get "meta", get "dup" with
+  | some io, some un, some re, some cy, some ta, some me, some du =>
+      if ["-", "input", "output"].contains io && ["-", "any", "throw"].contains un && ["-", "ref", "inline"].contains re
+         && ["-", "throw", "ref"].contains cy && ["-", "draft-07", "draft-2020-12"].contains ta
+         && ["global", "private"].contains me && ["0", "1"].contains du then
+        some ({ ioInput := io == "input", unrepAny := un == "any", reusedRef := re == "ref", cyclesThrow := cy == "throw",
+                draft07 := ta == "draft-07", privateMeta := me == "private" }, du == "1")
+      else none
+  | _, _, _, _, _, _, _ => none
+
+def docLine (d : Option JS) : String :=
+  match d with
+  | some j => b2s (wfJS j) ++ " " ++ renderJS j
+  | none => "error"
+
+def instLine (s : S) (x : Json) : String :=
         let j := toDoc s
         let p := accepts s x
         let rs := dedup (reasons true true s ++ instReasons x)
         -- self-check: the itemised reasons are empty exactly when the theorem's hypotheses hold
         let coherent := (rs.isEmpty == (reprTop true s && instOK x))
+        let rs := rs ++ ifNot (!andStrictNested s) "intersection-strict-nested"
         b2s p ++ " " ++ (if p then b2s (jsValid j (out s x)) else "-") ++ " " ++ b2s (jsValid j x)
           ++ "\t" ++ (if coherent then "" else "INCOHERENT,") ++ ",".intercalate rs
+
+def handle : List String → String
+  | "doc" :: ts =>
+    match pS ts with
+    | some (s, []) => docLine (convertO {} false s)
+    | _ => "bad-op"
+  | "inst" :: ts =>
+    match pS ts with
+    | some (s, ts) =>
+      match pJ ts with
+      | some (x, []) => instLine s x
       | _ => "bad-op"
     | none => "bad-op"
+  -- the k-th call of a history: `runHistory` gives every call the document `convertO` gives it alone
+  | "hdoc" :: _k :: o :: ts =>
+    match pOpts o, pS ts with
+    | some (o, dup), some (s, []) => docLine (convertO o dup s)
+    | _, _ => "bad-op"
+  | "hinst" :: _k :: o :: ts =>
+    match pOpts o, pS ts with
+    | some (o, dup), some (s, ts) =>
+      match pJ ts, convertO o dup s with
+      | some (x, []), some _ => instLine s x
+      | _, _ => "bad-op"
+    | _, _ => "bad-op"
   | _ => "bad-op"
 
 end Gozod.Drv.C07
